@@ -221,6 +221,7 @@ def classify(cbmc_json_path):
     failed, unwind_failed, unsupported_failed = [], [], []
     covers_total = covers_sat = 0
     unsat_covers = []
+    sat_cover_keys = []
     cover_traces = []
     n_checks = 0
     undetermined = []
@@ -239,6 +240,7 @@ def classify(cbmc_json_path):
             covers_total += 1
             if st in ('FAILURE', 'SATISFIED'):   # CBMC encodes cover!(c) as assert(!c)
                 covers_sat += 1
+                sat_cover_keys.append((desc[:300], loc.get('file'), loc.get('line')))
                 if 'trace' in r:
                     cover_traces.append((desc, r['trace']))
             else:
@@ -268,11 +270,14 @@ def classify(cbmc_json_path):
         status = 'UNWIND'
     elif undetermined:
         status = 'UNDETERMINED'
-    elif unsat_covers:
+    elif unsat_covers and covers_sat == 0:
+        # no reachability witness at all in this harness.  (Covers that live in helper functions
+        # shared by several harness instances need only be reached by *one* instance: the driver
+        # checks that union per property, see bin/check.)
         status = 'VACUOUS'
     return dict(status=status, failed=failed, unwind_failed=unwind_failed,
                 unsupported_failed=unsupported_failed, covers_total=covers_total, covers_sat=covers_sat,
-                unsat_covers=unsat_covers, n_checks=n_checks, cover_traces=cover_traces,
+                unsat_covers=unsat_covers, n_checks=n_checks, cover_traces=cover_traces, sat_cover_keys=sat_cover_keys,
                 undetermined=undetermined)
 
 
